@@ -324,6 +324,7 @@ class Escape:
                 out += self._subscript(fr, f, st, n)
             elif isinstance(n, ast.Attribute) and isinstance(n.ctx, ast.Load):
                 out += self._property(fr, f, st, n)
+                out += self._optional_self(fr, f, st, n)
         if isinstance(st, ast.Assign) and len(st.targets) == 1 and isinstance(st.targets[0], (ast.Tuple, ast.List)):
             v = st.value
             if isinstance(v, ast.Call) and isinstance(v.func, ast.Attribute) and v.func.attr in ("split", "rsplit", "partition") and v.func.attr != "partition":
@@ -922,6 +923,145 @@ class Escape:
         for a, p in f.guard_atoms(node) + f.guard_atoms_x(node):
             if p and a in (f"{raw} is not None", f"{txt} is not None", raw, txt):
                 return True
+        return False
+
+    def _optional_self(self, fr, f: Fn, st, n: ast.Attribute) -> list[Item]:
+        """S7b (contradiction rule): `self.X.attr` where X is declared Optional and the *same function*
+        also tests `self.X` against None - then every dereference must be covered by such a test
+        (dominating guard or short-circuit position).  A function that never tests the field relies on
+        a state invariant and is left alone."""
+        base = n.value
+        if not (isinstance(base, ast.Attribute) and isinstance(base.value, ast.Name) and base.value.id == "self"):
+            return []
+        cls = getattr(fr.node, "_class", None)
+        if cls is None:
+            return []
+        t = self.prog.lookup_field(cls.name, base.attr) or ""
+        if not t.startswith("Optional["):
+            return []
+        raw = norm(base)
+        tested = False
+        for x in f.nodes(ast.Compare):
+            if len(x.ops) == 1 and isinstance(x.ops[0], (ast.Is, ast.IsNot)) and norm(x.left) == raw and isinstance(x.comparators[0], ast.Constant) and x.comparators[0].value is None:
+                tested = True
+        if not tested and not self._conditionally_initialised(cls, base.attr):
+            return []
+        if self._none_guard(f, n, base) or self._shortcircuit_guard(n, raw):
+            return []
+        # flag correlation: a local that is truthy only where `raw is not None` held guards this use
+        for a, pol in f.guard_atoms(n):
+            if pol and a.isidentifier() and not f.is_param(a):
+                defs = f.assigns(chain=a)
+                if defs and all((isinstance(v3, ast.Constant) and not v3.value) or (f"{raw} is not None", True) in f.lexical_guards(s3, expand=False) for s3, t3, v3 in defs):
+                    return []
+        if self._flag_correlated(cls, f, n, base.attr):
+            return []
+        # assigned a non-None value earlier on every path
+        for s2, t2, v2 in f.assigns(chain=raw):
+            if f.before(s2, n) and not (isinstance(v2, ast.Constant) and v2.value is None):
+                return []
+        if self.suppressed(fr, st, "AttributeError"):
+            return []
+        return [Item("AttributeError", f"{fr.ref}: {norm(st)[:110]}", self.repo.loc(n, fr.mod), (fr.ref,), None, f"`{raw}` is Optional and " + ("tested against None elsewhere in this function" if tested else "only ever initialised conditionally") + f", but `{norm(n)}` dereferences it on a path without a None test")]
+
+    def _field_sites(self, cls: ast.ClassDef, field: str):
+        """(method, stmt, value, ancestors-within-method) for every `self.<field> = value` in the class"""
+        out = []
+        for m in cls.body:
+            if not isinstance(m, (ast.FunctionDef, ast.AsyncFunctionDef)):
+                continue
+
+            def rec(stmts, anc):
+                for st in stmts:
+                    if isinstance(st, (ast.FunctionDef, ast.AsyncFunctionDef, ast.ClassDef)):
+                        continue
+                    if isinstance(st, (ast.Assign, ast.AnnAssign)) and st.value is not None:
+                        tg = st.targets if isinstance(st, ast.Assign) else [st.target]
+                        for t in tg:
+                            if isinstance(t, ast.Attribute) and isinstance(t.value, ast.Name) and t.value.id == "self" and t.attr == field:
+                                out.append((m, st, st.value, anc, stmts))
+                    for fld in ("body", "orelse", "finalbody"):
+                        sub = getattr(st, fld, None)
+                        if sub:
+                            rec(sub, anc + [(st, fld)])
+                    for h in getattr(st, "handlers", []) or []:
+                        rec(h.body, anc + [(st, "handler")])
+
+            rec(m.body, [])
+        return out
+
+    @staticmethod
+    def _always_raises(stmts) -> bool:
+        return bool(stmts) and isinstance(stmts[-1], ast.Raise)
+
+    def _conditionally_initialised(self, cls: ast.ClassDef, field: str) -> bool:
+        """no method assigns a non-None value to self.<field> on all of its normal paths: the field is
+        None on some histories by design, so a dereference needs a test.  An assignment counts as
+        unconditional when it is at method top level, inside `with`, in a try body whose handlers all
+        raise, or present in both arms of a top-level if/else."""
+        key = (cls.name, field)
+        memo = self.__dict__.setdefault("_condinit", {})
+        if key in memo:
+            return memo[key]
+        sites = [x for x in self._field_sites(cls, field) if not (isinstance(x[2], ast.Constant) and x[2].value is None)]
+        uncond = False
+        arms: dict[int, set] = {}
+        for m, st, v, anc, _blk in sites:
+            conds = []
+            for a, fld in anc:
+                if isinstance(a, (ast.With, ast.AsyncWith)):
+                    continue
+                if isinstance(a, ast.Try) and fld == "body" and all(self._always_raises(h.body) for h in a.handlers):
+                    continue
+                conds.append((a, fld))
+            if not conds:
+                uncond = True
+            elif len(conds) == 1 and isinstance(conds[0][0], ast.If) and conds[0][0] in m.body:
+                arms.setdefault(id(conds[0][0]), set()).add(conds[0][1])
+        if any(x == {"body", "orelse"} for x in arms.values()):
+            uncond = True
+        memo[key] = bool(sites) and not uncond
+        return memo[key]
+
+    def _flag_correlated(self, cls: ast.ClassDef, f: Fn, n, field: str) -> bool:
+        """the use is guarded by a boolean field self.F, and every `self.F = True` in the class directly
+        follows (same block) a non-None assignment to self.<field>, which is never reset to None"""
+        sites = self._field_sites(cls, field)
+        if any(isinstance(v, ast.Constant) and v.value is None and m.name != "__init__" for m, st, v, anc, blk in sites):
+            return False
+        for a, pol in f.guard_atoms(n):
+            if not (pol and a.startswith("self.") and a[5:].isidentifier()):
+                continue
+            flag_sites = [x for x in self._field_sites(cls, a[5:]) if isinstance(x[2], ast.Constant) and x[2].value is True]
+            if not flag_sites:
+                continue
+            ok = True
+            for m, st, v, anc, blk in flag_sites:
+                idx = blk.index(st)
+                if not any(s2 is b for b in blk[:idx] for (m2, s2, v2, a2, b2) in sites if not (isinstance(v2, ast.Constant) and v2.value is None)):
+                    ok = False
+            if ok:
+                return True
+        return False
+
+    @staticmethod
+    def _shortcircuit_guard(node, raw: str) -> bool:
+        child = node
+        for anc in _ancestors(node):
+            if isinstance(anc, ast.BoolOp):
+                idx = next((i for i, v in enumerate(anc.values) if v is child or any(x is child for x in ast.walk(v))), None)
+                if idx:
+                    for v in anc.values[:idx]:
+                        tv = norm(v)
+                        if isinstance(anc.op, ast.Or) and tv == f"{raw} is None":
+                            return True
+                        if isinstance(anc.op, ast.And) and tv in (f"{raw} is not None", raw):
+                            return True
+            if isinstance(anc, ast.IfExp) and child is anc.body and norm(anc.test) in (f"{raw} is not None", raw):
+                return True
+            if isinstance(anc, ast.stmt):
+                break
+            child = anc
         return False
 
     def _optional_use(self, fr, f: Fn, st, e, how) -> list[Item]:
